@@ -24,9 +24,11 @@ BASE["P3"] = c06.DRIVERS["P3"]
 # a driver that closes channels so that RE-CONFIG request/response sequence numbers are used
 BASE["X1"] = dict(
     setup="settled",
-    channels=[C.chan("a", negotiated=0), C.chan("b", negotiated=1)],
+    channels=[C.chan("a", negotiated=0), C.chan("b", negotiated=1), C.chan("c", negotiated=2), C.chan("d", negotiated=3)],
     script=[[("send", "A", "a", C.pay("a", 0, 100)), ("close", "A", "a")],
-            [("send", "B", "b", C.pay("b", 0, 100)), ("close", "B", "b")]],
+            [("send", "B", "b", C.pay("b", 0, 100)), ("close", "B", "b")],
+            # each side resets a second stream: its request sequence number has moved on (past 2^32 in the shifted world)
+            [("send", "A", "c", C.pay("c", 0, 100)), ("close", "A", "c"), ("send", "B", "d", C.pay("d", 0, 100)), ("close", "B", "d")]],
 )
 
 VARIANTS = {
